@@ -206,7 +206,10 @@ ocp.set_der(v, a)
                 [tau,B] = eval_on_knots(self.xi,dmax-i,subsamples=refine-1)
                 self.B[refine][self.N+d] = B
                 self.tau[refine] = tau
-        self.time[refine] = self.time_grid(self.t0, self.T, self.N*refine)
+        # Time stamps of the refined samples: every control interval is split into `refine` equal parts
+        # (the spline is evaluated there; a grid with N*refine intervals differs unless the grid is uniform)
+        [tau_refined,_] = eval_on_knots(self.xi, 0, subsamples=refine-1)
+        self.time[refine] = self.t0 + ca.vec(tau_refined)*self.T
 
         # Evaluate spline on the control grid
         for L,chains in self.groups.items():
@@ -314,8 +317,9 @@ ocp.set_der(v, a)
             widths = set([self.origins[i]["w"] for i in deps])
             assert len(widths)==1
             coeffs = ca.vcat([self.coeffs_epxr[i] for i in deps])
-            d = self.origins[deps[0]]["d"]
-            return self.t0+self.G[d]*self.T, (Jmul @ coeffs)+bs
+            # Degree of this member of the chain (the i-th derivative of a degree-d spline)
+            d = self.origins[deps[0]]["d"]-self.origins[deps[0]]["i"]
+            return self.t0+get_greville_points(self.xi, d)*self.T, (Jmul @ coeffs)+bs
         elif has_entries[1]:
             deps = ca.sum1(Js[1].sparsity()).T.row()
             vars = vvcat(self.signals.keys())[deps]
